@@ -13,20 +13,6 @@ const SIMPLE: &[&str] = &["A", "B", "Foo", "Bar", "Main", "Entry", "Node", "C_12
 const CUSTOM: &[&str] = &["Named", "Inner", "Builder", "Ünï", "Impl", "State", "名", "L", "X_"];
 const DIGITS: &[&str] = &["1", "2", "3", "12", "007", "99"];
 
-#[derive(Clone, Debug)]
-pub struct Scenario {
-    /// classes in the jar, in generation order (index 0 is never nested)
-    pub present: Vec<String>,
-    /// methods `(name, descriptor)` each present class declares
-    pub methods: BTreeMap<String, Vec<(String, String)>>,
-    pub rows: Vec<Row>,
-    pub final_newline: bool,
-    /// every class name that occurs anywhere (present, absent row classes, missing enclosing classes)
-    pub universe: BTreeSet<String>,
-    /// the table was generated so that every row applies
-    pub all_apply_intended: bool,
-}
-
 pub struct Names { pub used: BTreeSet<String>, ctr: usize }
 impl Names {
     pub fn new() -> Names { Names { used: BTreeSet::new(), ctr: 0 } }
